@@ -41,18 +41,20 @@ def run(replay=None):
     scen = []
     for k in range(48 if quick else 1200):
         scen.append((rng.randrange(1 << 20), rng.choice([2, 3, 4, 8, 16]), rng.choice([30, 60, 120])))
-    stats = dict(scenarios=0, cold=0, operations=0, wrong_answers=0, tsan_reports=0, threads={})
+    lastref = [(rng.randrange(1 << 20), rng.choice([2, 2, 3, 4, 8]), 150 if quick else 400) for _ in range(16 if quick else 200)]
+    stats = dict(scenarios=0, cold=0, operations=0, wrong_answers=0, tsan_reports=0, threads={},
+                 lastref_scenarios=0, lastref_trials=0, lastref_nodes_freed=0)
     env = dict(os.environ, TSAN_OPTIONS="halt_on_error=0 exitcode=0 report_signal_unsafe=0")
     from concurrent.futures import ThreadPoolExecutor
 
     def one(chunk):
-        text = "".join(f"scenario {s} {n} {o}\n" for s, n, o in chunk)
+        text = "".join(f"{'lastref' if len(c) == 4 else 'scenario'} {c[0]} {c[1]} {c[2]}\n" for c in chunk)
         try:
             p = subprocess.run([exe], input=text, stdout=subprocess.PIPE, stderr=subprocess.PIPE, text=True, timeout=1800, env=env)
             return chunk, p.stdout, p.stderr, p.returncode
         except subprocess.TimeoutExpired:
             return chunk, "", "TIMEOUT", -1
-    chunks = [scen[i::8] for i in range(8)]
+    chunks = [scen[i::8] for i in range(8)] + [[c + ("lastref",) for c in lastref[i::4]] for i in range(4)]
     with ThreadPoolExecutor(max_workers=4) as ex:
         results = list(ex.map(one, chunks))
     seen = set()
@@ -61,6 +63,17 @@ def run(replay=None):
             ck.violation("crash", f"thread scenarios crashed or hung (rc={rc})", {"scenarios": chunk, "stderr": err[-3000:]})
             continue
         for line in out.splitlines():
+            m = re.match(r"LR seed=(\d+) threads=(\d+) trials=(\d+) freed=(\d+) bad=(\d+)", line)
+            if m:
+                stats["lastref_scenarios"] += 1
+                stats["lastref_trials"] += int(m.group(3))
+                stats["lastref_nodes_freed"] += int(m.group(4))
+                if int(m.group(5)):
+                    ck.violation("lastref:count", f"after {m.group(2)} threads together released the last references of a shared "
+                                 f"sub-expression, the number of live nodes differs from the baseline in {m.group(5)} of {m.group(3)} trials "
+                                 "(a node was freed twice or never)",
+                                 {"scenario": f"lastref {m.group(1)} {m.group(2)} {m.group(3)}", "detail": line})
+                continue
             m = re.match(r"TH seed=(\d+) threads=(\d+) ok=(\d+) bad=(\d+)", line)
             if not m:
                 continue
@@ -91,7 +104,8 @@ def run(replay=None):
     ck.coverage["evaluations"] = stats["operations"]
     ck.coverage["rule"] = ("random shared DAGs (12..31 nodes with sharing and remaps); threads {2,3,4,8,16}; 30..120 operations per thread "
                            "drawn from copy/move/destroy, print, optimized, flatten, remap+flatten, serialise+deserialise, ArrayEvaluator, "
-                           "IntervalEvaluator; odd seeds are cold starts")
+                           "IntervalEvaluator; odd seeds are cold starts; last-reference scenarios: 2..8 threads released from a spin barrier "
+                           "each destroy one parent of a shared sub-DAG whose only owners are those parents (live-node counter must return to baseline)")
     ck.coverage["trusted_base"] += ["ThreadSanitizer (g++ 12) on sampled schedules; harness/threads.cpp"]
     ck.assumptions += ["the C API's Opcode::fromScmString / toString tables are lazily initialised without synchronisation "
                        "(opcode.cpp); they are not among the operations this property lists and are not exercised here"]
